@@ -11,6 +11,7 @@ import itertools
 
 from .. import universe as U
 from ..acc import Acc
+from .. import argforms as AF
 from ..muts import compute_parents, depth_in
 from ..ref import edit as R
 from ..ref.geno import site_alleles
@@ -596,7 +597,7 @@ def run_ds(m, var, acc):
     for n, ids in enumerate(site_id_lists(S, var.get("full_len", 2))):
         case = dict(base_case, site_ids=ids)
         recorded = bool(n & 1)
-        arg = ids if n % 3 else np.array(ids, dtype=[np.int32, np.int64][n % 2])
+        arg = AF.pick(ids, salt=n)[1]
         nontrivial = has_par and 0 < len(set(ids)) < S
         acc.ev(1, nontrivial)
         try:
